@@ -521,6 +521,40 @@ class CoroLike(collections.abc.Coroutine):
         return 0 if self.falsy else 1
 
 
+def run_exited_thread(req):
+    """greenlets that belonged to a thread which has exited (references kept elsewhere): greenlet calls them dead - its main
+    greenlet, and one that was left suspended there.  A dead greenlet has no frames, and there is no error."""
+    import threading
+    box = {}
+
+    def entry():
+        def inner():
+            box["main"].switch()
+        inner()
+
+    def body():
+        box["main"] = greenlet.getcurrent()
+        g = greenlet.greenlet(entry)
+        box["suspended"] = g
+        g.switch()
+
+    t = threading.Thread(target=body)
+    t.start()
+    t.join(30)
+    obs = []
+    for which in ("main", "suspended"):
+        g = box[which]
+        try:
+            st = extract(g, with_contexts=False)
+        except BaseException as ex:
+            obs.append({"kind": "raised", "target": which, "exc": repr(ex)})
+            continue
+        if st.frames or st.error is not None:
+            obs.append({"kind": "greenlet_of_an_exited_thread", "target": which, "frames": [f.funcname for f in st.frames],
+                        "error": repr(st.error), "dead_says_greenlet": bool(g.dead)})
+    return {"obs": obs, "stats": {"observations": 2, "glets": 2, "from_descendant": 0}}
+
+
 def run_greenback_asyncio(req):
     """greenback under asyncio, where coroutines are resumed with throw(): every async level first awaits a
     future that fails (after a real suspension) and catches the error, so the bridge last resumed it through the
@@ -621,6 +655,8 @@ def handle(req):
         return run_greenback_asyncio(req)
     if op == "green.chain":
         return run_chain(req)
+    if op == "green.exited_thread":
+        return run_exited_thread(req)
     if op == "green.other_thread":
         return run_other_thread(req)
     if op == "green.greenback":
